@@ -66,37 +66,37 @@ package http2
 //@ func parseDataFrame :: fc, fh, countError, payload -> f, err
 //@   props C19,C10,C13
 //@   callback countError
-//@   ensures [C19:any-frame-header] err == nil ==> f != nil && hdrOf(f) == fh
-//@   ensures [C19:any-error-kind] err != nil ==> f == nil
+//@   ensures [C19,C13:any-frame-header] err == nil ==> f != nil && hdrOf(f) == fh
+//@   ensures [C19,C13:any-error-kind] err != nil ==> f == nil
 //@   assigns fc.dataFrame.all
-//@   ensures [C19:data-stream0] fh.StreamID == 0 ==> isConnErrDetail(err, 1)
-//@   ensures [C19:data-pad-byte-missing] fh.StreamID != 0 && flag(fh.Flags, 8) && len(payload) == 0 ==> err == io.ErrUnexpectedEOF
-//@   ensures [C19:data-pad-too-big] fh.StreamID != 0 && flag(fh.Flags, 8) && len(payload) > 0 && payload[0] > len(payload) - 1 ==> isConnErrDetail(err, 1)
-//@   ensures [C19:data-padded] fh.StreamID != 0 && flag(fh.Flags, 8) && len(payload) > 0 && payload[0] <= len(payload) - 1 ==> err == nil && isptr(DataFrame, f) && unboxptr(DataFrame, f) != nil && val(unboxptr(DataFrame, f).FrameHeader) == fh && unboxptr(DataFrame, f).data == payload[1 : len(payload)-payload[0]]
-//@   ensures [C19:data-plain] fh.StreamID != 0 && !flag(fh.Flags, 8) ==> err == nil && isptr(DataFrame, f) && unboxptr(DataFrame, f) != nil && val(unboxptr(DataFrame, f).FrameHeader) == fh && unboxptr(DataFrame, f).data == payload
-//@   ensures [C19:error-no-frame] err != nil ==> f == nil
+//@   ensures [C19,C13:data-stream0] fh.StreamID == 0 ==> isConnErrDetail(err, 1)
+//@   ensures [C19,C13:data-pad-byte-missing] fh.StreamID != 0 && flag(fh.Flags, 8) && len(payload) == 0 ==> err == io.ErrUnexpectedEOF
+//@   ensures [C19,C13:data-pad-too-big] fh.StreamID != 0 && flag(fh.Flags, 8) && len(payload) > 0 && payload[0] > len(payload) - 1 ==> isConnErrDetail(err, 1)
+//@   ensures [C19,C13:data-padded] fh.StreamID != 0 && flag(fh.Flags, 8) && len(payload) > 0 && payload[0] <= len(payload) - 1 ==> err == nil && isptr(DataFrame, f) && unboxptr(DataFrame, f) != nil && val(unboxptr(DataFrame, f).FrameHeader) == fh && unboxptr(DataFrame, f).data == payload[1 : len(payload)-payload[0]]
+//@   ensures [C19,C13:data-plain] fh.StreamID != 0 && !flag(fh.Flags, 8) ==> err == nil && isptr(DataFrame, f) && unboxptr(DataFrame, f) != nil && val(unboxptr(DataFrame, f).FrameHeader) == fh && unboxptr(DataFrame, f).data == payload
+//@   ensures [C19,C13:error-no-frame] err != nil ==> f == nil
 
 //@ func parsePingFrame :: fc, fh, countError, payload -> f, err
 //@   props C19,C10,C13
 //@   callback countError
-//@   ensures [C19:any-frame-header] err == nil ==> f != nil && hdrOf(f) == fh
-//@   ensures [C19:any-error-kind] err != nil ==> f == nil
+//@   ensures [C19,C13:any-frame-header] err == nil ==> f != nil && hdrOf(f) == fh
+//@   ensures [C19,C13:any-error-kind] err != nil ==> f == nil
 //@   assigns nothing
-//@   ensures [C19:ping-len] len(payload) != 8 ==> isConnErr(err, 6)
-//@   ensures [C19:ping-stream] len(payload) == 8 && fh.StreamID != 0 ==> isConnErr(err, 1)
-//@   ensures [C19:ping-ok] len(payload) == 8 && fh.StreamID == 0 ==> err == nil && isptr(PingFrame, f) && unboxptr(PingFrame, f) != nil && fresh(unboxptr(PingFrame, f)) && val(unboxptr(PingFrame, f).FrameHeader) == fh && unboxptr(PingFrame, f).Data == payload
-//@   ensures [C19:error-no-frame] err != nil ==> f == nil
+//@   ensures [C19,C13:ping-len] len(payload) != 8 ==> isConnErr(err, 6)
+//@   ensures [C19,C13:ping-stream] len(payload) == 8 && fh.StreamID != 0 ==> isConnErr(err, 1)
+//@   ensures [C19,C13:ping-ok] len(payload) == 8 && fh.StreamID == 0 ==> err == nil && isptr(PingFrame, f) && unboxptr(PingFrame, f) != nil && fresh(unboxptr(PingFrame, f)) && val(unboxptr(PingFrame, f).FrameHeader) == fh && unboxptr(PingFrame, f).Data == payload
+//@   ensures [C19,C13:error-no-frame] err != nil ==> f == nil
 
 //@ func parseGoAwayFrame :: fc, fh, countError, p -> f, err
 //@   props C19,C10,C13
 //@   callback countError
-//@   ensures [C19:any-frame-header] err == nil ==> f != nil && hdrOf(f) == fh
-//@   ensures [C19:any-error-kind] err != nil ==> f == nil
+//@   ensures [C19,C13:any-frame-header] err == nil ==> f != nil && hdrOf(f) == fh
+//@   ensures [C19,C13:any-error-kind] err != nil ==> f == nil
 //@   assigns nothing
-//@   ensures [C19:goaway-stream] fh.StreamID != 0 ==> isConnErr(err, 1)
-//@   ensures [C19:goaway-short] fh.StreamID == 0 && len(p) < 8 ==> isConnErr(err, 6)
-//@   ensures [C19:goaway-ok] fh.StreamID == 0 && len(p) >= 8 ==> err == nil && isptr(GoAwayFrame, f) && unboxptr(GoAwayFrame, f) != nil && val(unboxptr(GoAwayFrame, f).FrameHeader) == fh && unboxptr(GoAwayFrame, f).LastStreamID == be32(p) % 2147483648 && unboxptr(GoAwayFrame, f).ErrCode == be32(p[4:8]) && unboxptr(GoAwayFrame, f).debugData == p[8:]
-//@   ensures [C19:error-no-frame] err != nil ==> f == nil
+//@   ensures [C19,C13:goaway-stream] fh.StreamID != 0 ==> isConnErr(err, 1)
+//@   ensures [C19,C13:goaway-short] fh.StreamID == 0 && len(p) < 8 ==> isConnErr(err, 6)
+//@   ensures [C19,C13:goaway-ok] fh.StreamID == 0 && len(p) >= 8 ==> err == nil && isptr(GoAwayFrame, f) && unboxptr(GoAwayFrame, f) != nil && val(unboxptr(GoAwayFrame, f).FrameHeader) == fh && unboxptr(GoAwayFrame, f).LastStreamID == be32(p) % 2147483648 && unboxptr(GoAwayFrame, f).ErrCode == be32(p[4:8]) && unboxptr(GoAwayFrame, f).debugData == p[8:]
+//@   ensures [C19,C13:error-no-frame] err != nil ==> f == nil
 
 //@ func parseUnknownFrame :: fc, fh, countError, p -> f, err
 //@   props C19,C10
@@ -109,47 +109,47 @@ package http2
 //@ func parseWindowUpdateFrame :: fc, fh, countError, p -> f, err
 //@   props C19,C10,C03,C13
 //@   callback countError
-//@   ensures [C19:any-frame-header] err == nil ==> f != nil && hdrOf(f) == fh
-//@   ensures [C19:any-error-kind] err != nil ==> f == nil
+//@   ensures [C19,C13:any-frame-header] err == nil ==> f != nil && hdrOf(f) == fh
+//@   ensures [C19,C13:any-error-kind] err != nil ==> f == nil
 //@   assigns nothing
-//@   ensures [C19:wu-len] len(p) != 4 ==> isConnErr(err, 6)
-//@   ensures [C19:wu-zero-conn] len(p) == 4 && be32(p) % 2147483648 == 0 && fh.StreamID == 0 ==> isConnErr(err, 1)
-//@   ensures [C19:wu-zero-stream] len(p) == 4 && be32(p) % 2147483648 == 0 && fh.StreamID != 0 ==> isStreamErr(err, fh.StreamID, 1)
-//@   ensures [C19:wu-ok] len(p) == 4 && be32(p) % 2147483648 != 0 ==> err == nil && isptr(WindowUpdateFrame, f) && unboxptr(WindowUpdateFrame, f) != nil && val(unboxptr(WindowUpdateFrame, f).FrameHeader) == fh && unboxptr(WindowUpdateFrame, f).Increment == be32(p) % 2147483648
+//@   ensures [C19,C13:wu-len] len(p) != 4 ==> isConnErr(err, 6)
+//@   ensures [C19,C13:wu-zero-conn] len(p) == 4 && be32(p) % 2147483648 == 0 && fh.StreamID == 0 ==> isConnErr(err, 1)
+//@   ensures [C19,C13:wu-zero-stream] len(p) == 4 && be32(p) % 2147483648 == 0 && fh.StreamID != 0 ==> isStreamErr(err, fh.StreamID, 1)
+//@   ensures [C19,C13:wu-ok] len(p) == 4 && be32(p) % 2147483648 != 0 ==> err == nil && isptr(WindowUpdateFrame, f) && unboxptr(WindowUpdateFrame, f) != nil && val(unboxptr(WindowUpdateFrame, f).FrameHeader) == fh && unboxptr(WindowUpdateFrame, f).Increment == be32(p) % 2147483648
 //@   ensures [C03:increment-positive] err == nil ==> 1 <= unboxptr(WindowUpdateFrame, f).Increment && unboxptr(WindowUpdateFrame, f).Increment <= 2147483647
-//@   ensures [C19:error-no-frame] err != nil ==> f == nil
+//@   ensures [C19,C13:error-no-frame] err != nil ==> f == nil
 
 //@ func parsePriorityFrame :: fc, fh, countError, payload -> f, err
 //@   props C19,C10,C13
 //@   callback countError
-//@   ensures [C19:any-frame-header] err == nil ==> f != nil && hdrOf(f) == fh
-//@   ensures [C19:any-error-kind] err != nil ==> f == nil
+//@   ensures [C19,C13:any-frame-header] err == nil ==> f != nil && hdrOf(f) == fh
+//@   ensures [C19,C13:any-error-kind] err != nil ==> f == nil
 //@   assigns nothing
-//@   ensures [C19:priority-stream0] fh.StreamID == 0 ==> isConnErrDetail(err, 1)
-//@   ensures [C19:priority-len] fh.StreamID != 0 && len(payload) != 5 ==> isConnErrDetail(err, 6)
-//@   ensures [C19:priority-ok] fh.StreamID != 0 && len(payload) == 5 ==> err == nil && isptr(PriorityFrame, f) && unboxptr(PriorityFrame, f) != nil && val(unboxptr(PriorityFrame, f).FrameHeader) == fh && unboxptr(PriorityFrame, f).PriorityParam.StreamDep == be32(payload) % 2147483648 && unboxptr(PriorityFrame, f).PriorityParam.Exclusive == (be32(payload) >= 2147483648) && unboxptr(PriorityFrame, f).PriorityParam.Weight == payload[4]
-//@   ensures [C19:error-no-frame] err != nil ==> f == nil
+//@   ensures [C19,C13:priority-stream0] fh.StreamID == 0 ==> isConnErrDetail(err, 1)
+//@   ensures [C19,C13:priority-len] fh.StreamID != 0 && len(payload) != 5 ==> isConnErrDetail(err, 6)
+//@   ensures [C19,C13:priority-ok] fh.StreamID != 0 && len(payload) == 5 ==> err == nil && isptr(PriorityFrame, f) && unboxptr(PriorityFrame, f) != nil && val(unboxptr(PriorityFrame, f).FrameHeader) == fh && unboxptr(PriorityFrame, f).PriorityParam.StreamDep == be32(payload) % 2147483648 && unboxptr(PriorityFrame, f).PriorityParam.Exclusive == (be32(payload) >= 2147483648) && unboxptr(PriorityFrame, f).PriorityParam.Weight == payload[4]
+//@   ensures [C19,C13:error-no-frame] err != nil ==> f == nil
 
 //@ func parseRSTStreamFrame :: fc, fh, countError, p -> f, err
 //@   props C19,C10,C13
 //@   callback countError
-//@   ensures [C19:any-frame-header] err == nil ==> f != nil && hdrOf(f) == fh
-//@   ensures [C19:any-error-kind] err != nil ==> f == nil
+//@   ensures [C19,C13:any-frame-header] err == nil ==> f != nil && hdrOf(f) == fh
+//@   ensures [C19,C13:any-error-kind] err != nil ==> f == nil
 //@   assigns nothing
-//@   ensures [C19:rst-len] len(p) != 4 ==> isConnErr(err, 6)
-//@   ensures [C19:rst-stream0] len(p) == 4 && fh.StreamID == 0 ==> isConnErr(err, 1)
-//@   ensures [C19:rst-ok] len(p) == 4 && fh.StreamID != 0 ==> err == nil && isptr(RSTStreamFrame, f) && unboxptr(RSTStreamFrame, f) != nil && val(unboxptr(RSTStreamFrame, f).FrameHeader) == fh && unboxptr(RSTStreamFrame, f).ErrCode == be32(p)
-//@   ensures [C19:error-no-frame] err != nil ==> f == nil
+//@   ensures [C19,C13:rst-len] len(p) != 4 ==> isConnErr(err, 6)
+//@   ensures [C19,C13:rst-stream0] len(p) == 4 && fh.StreamID == 0 ==> isConnErr(err, 1)
+//@   ensures [C19,C13:rst-ok] len(p) == 4 && fh.StreamID != 0 ==> err == nil && isptr(RSTStreamFrame, f) && unboxptr(RSTStreamFrame, f) != nil && val(unboxptr(RSTStreamFrame, f).FrameHeader) == fh && unboxptr(RSTStreamFrame, f).ErrCode == be32(p)
+//@   ensures [C19,C13:error-no-frame] err != nil ==> f == nil
 
 //@ func parseContinuationFrame :: fc, fh, countError, p -> f, err
 //@   props C19,C10,C13
 //@   callback countError
-//@   ensures [C19:any-frame-header] err == nil ==> f != nil && hdrOf(f) == fh
-//@   ensures [C19:any-error-kind] err != nil ==> f == nil
+//@   ensures [C19,C13:any-frame-header] err == nil ==> f != nil && hdrOf(f) == fh
+//@   ensures [C19,C13:any-error-kind] err != nil ==> f == nil
 //@   assigns nothing
-//@   ensures [C19:continuation-stream0] fh.StreamID == 0 ==> isConnErrDetail(err, 1)
-//@   ensures [C19:continuation-ok] fh.StreamID != 0 ==> err == nil && isptr(ContinuationFrame, f) && unboxptr(ContinuationFrame, f) != nil && val(unboxptr(ContinuationFrame, f).FrameHeader) == fh && unboxptr(ContinuationFrame, f).headerFragBuf == p
-//@   ensures [C19:error-no-frame] err != nil ==> f == nil
+//@   ensures [C19,C13:continuation-stream0] fh.StreamID == 0 ==> isConnErrDetail(err, 1)
+//@   ensures [C19,C13:continuation-ok] fh.StreamID != 0 ==> err == nil && isptr(ContinuationFrame, f) && unboxptr(ContinuationFrame, f) != nil && val(unboxptr(ContinuationFrame, f).FrameHeader) == fh && unboxptr(ContinuationFrame, f).headerFragBuf == p
+//@   ensures [C19,C13:error-no-frame] err != nil ==> f == nil
 
 //@ -- HEADERS: offsets of the optional pad-length octet and priority block
 //@ pure func hPad(fh FrameHeader) int = ite(flag(fh.Flags, 8), 1, 0)
@@ -159,17 +159,17 @@ package http2
 //@ func parseHeadersFrame :: fc, fh, countError, p -> f, err
 //@   props C19,C10,C13
 //@   callback countError
-//@   ensures [C19:any-frame-header] err == nil ==> f != nil && hdrOf(f) == fh
-//@   ensures [C19:any-headers-type] err == nil ==> isptr(HeadersFrame, f) && unboxptr(HeadersFrame, f) != nil
-//@   ensures [C19:any-error-kind] err != nil ==> f == nil
+//@   ensures [C19,C13:any-frame-header] err == nil ==> f != nil && hdrOf(f) == fh
+//@   ensures [C19,C13:any-headers-type] err == nil ==> isptr(HeadersFrame, f) && unboxptr(HeadersFrame, f) != nil
+//@   ensures [C19,C13:any-error-kind] err != nil ==> f == nil
 //@   assigns nothing
-//@   ensures [C19:headers-stream0] fh.StreamID == 0 ==> isConnErrDetail(err, 1)
-//@   ensures [C19:headers-short] fh.StreamID != 0 && len(p) < hPad(fh) + hPrio(fh) ==> err == io.ErrUnexpectedEOF
-//@   ensures [C19:headers-pad-too-big] fh.StreamID != 0 && len(p) >= hPad(fh) + hPrio(fh) && len(p) - hPad(fh) - hPrio(fh) < hPadLen(fh, p) ==> isStreamErr(err, fh.StreamID, 1)
-//@   ensures [C19:headers-ok] fh.StreamID != 0 && len(p) >= hPad(fh) + hPrio(fh) && len(p) - hPad(fh) - hPrio(fh) >= hPadLen(fh, p) ==> err == nil && isptr(HeadersFrame, f) && unboxptr(HeadersFrame, f) != nil && fresh(unboxptr(HeadersFrame, f)) && val(unboxptr(HeadersFrame, f).FrameHeader) == fh && unboxptr(HeadersFrame, f).headerFragBuf == p[hPad(fh)+hPrio(fh) : len(p)-hPadLen(fh, p)]
-//@   ensures [C19:headers-priority] err == nil && flag(fh.Flags, 32) ==> unboxptr(HeadersFrame, f).Priority.StreamDep == be32(p[hPad(fh):]) % 2147483648 && unboxptr(HeadersFrame, f).Priority.Exclusive == (be32(p[hPad(fh):]) >= 2147483648) && unboxptr(HeadersFrame, f).Priority.Weight == p[hPad(fh)+4]
-//@   ensures [C19:headers-no-priority] err == nil && !flag(fh.Flags, 32) ==> unboxptr(HeadersFrame, f).Priority.StreamDep == 0 && !unboxptr(HeadersFrame, f).Priority.Exclusive && unboxptr(HeadersFrame, f).Priority.Weight == 0
-//@   ensures [C19:error-no-frame] err != nil ==> f == nil
+//@   ensures [C19,C13:headers-stream0] fh.StreamID == 0 ==> isConnErrDetail(err, 1)
+//@   ensures [C19,C13:headers-short] fh.StreamID != 0 && len(p) < hPad(fh) + hPrio(fh) ==> err == io.ErrUnexpectedEOF
+//@   ensures [C19,C13:headers-pad-too-big] fh.StreamID != 0 && len(p) >= hPad(fh) + hPrio(fh) && len(p) - hPad(fh) - hPrio(fh) < hPadLen(fh, p) ==> isStreamErr(err, fh.StreamID, 1)
+//@   ensures [C19,C13:headers-ok] fh.StreamID != 0 && len(p) >= hPad(fh) + hPrio(fh) && len(p) - hPad(fh) - hPrio(fh) >= hPadLen(fh, p) ==> err == nil && isptr(HeadersFrame, f) && unboxptr(HeadersFrame, f) != nil && fresh(unboxptr(HeadersFrame, f)) && val(unboxptr(HeadersFrame, f).FrameHeader) == fh && unboxptr(HeadersFrame, f).headerFragBuf == p[hPad(fh)+hPrio(fh) : len(p)-hPadLen(fh, p)]
+//@   ensures [C19,C13:headers-priority] err == nil && flag(fh.Flags, 32) ==> unboxptr(HeadersFrame, f).Priority.StreamDep == be32(p[hPad(fh):]) % 2147483648 && unboxptr(HeadersFrame, f).Priority.Exclusive == (be32(p[hPad(fh):]) >= 2147483648) && unboxptr(HeadersFrame, f).Priority.Weight == p[hPad(fh)+4]
+//@   ensures [C19,C13:headers-no-priority] err == nil && !flag(fh.Flags, 32) ==> unboxptr(HeadersFrame, f).Priority.StreamDep == 0 && !unboxptr(HeadersFrame, f).Priority.Exclusive && unboxptr(HeadersFrame, f).Priority.Weight == 0
+//@   ensures [C19,C13:error-no-frame] err != nil ==> f == nil
 
 //@ func parsePushPromise :: fc, fh, countError, p -> f, err
 //@   props C19,C10
@@ -222,16 +222,16 @@ package http2
 //@ func parseSettingsFrame :: fc, fh, countError, p -> f, err
 //@   props C19,C10,C12,C13
 //@   callback countError
-//@   ensures [C19:any-frame-header] err == nil ==> f != nil && hdrOf(f) == fh
-//@   ensures [C19:any-error-kind] err != nil ==> f == nil
+//@   ensures [C19,C13:any-frame-header] err == nil ==> f != nil && hdrOf(f) == fh
+//@   ensures [C19,C13:any-error-kind] err != nil ==> f == nil
 //@   requires fh.valid
 //@   assigns nothing
-//@   ensures [C19:settings-ack-len] flag(fh.Flags, 1) && fh.Length > 0 ==> isConnErr(err, 6)
-//@   ensures [C19:settings-stream] !(flag(fh.Flags, 1) && fh.Length > 0) && fh.StreamID != 0 ==> isConnErr(err, 1)
-//@   ensures [C19:settings-mod6] !(flag(fh.Flags, 1) && fh.Length > 0) && fh.StreamID == 0 && len(p) % 6 != 0 ==> isConnErr(err, 6)
+//@   ensures [C19,C13:settings-ack-len] flag(fh.Flags, 1) && fh.Length > 0 ==> isConnErr(err, 6)
+//@   ensures [C19,C13:settings-stream] !(flag(fh.Flags, 1) && fh.Length > 0) && fh.StreamID != 0 ==> isConnErr(err, 1)
+//@   ensures [C19,C13:settings-mod6] !(flag(fh.Flags, 1) && fh.Length > 0) && fh.StreamID == 0 && len(p) % 6 != 0 ==> isConnErr(err, 6)
 //@   ensures [C12:settings-window-too-big] !(flag(fh.Flags, 1) && fh.Length > 0) && fh.StreamID == 0 && len(p) % 6 == 0 && firstSetting(p, 4, len(p)/6) >= 0 && settingVal(p, firstSetting(p, 4, len(p)/6)) > 2147483647 ==> isConnErr(err, 3)
-//@   ensures [C19:settings-ok] err == nil ==> isptr(SettingsFrame, f) && unboxptr(SettingsFrame, f) != nil && fresh(unboxptr(SettingsFrame, f)) && val(unboxptr(SettingsFrame, f).FrameHeader) == fh && unboxptr(SettingsFrame, f).p == p && len(p) % 6 == 0
-//@   ensures [C19:error-no-frame] err != nil ==> f == nil
+//@   ensures [C19,C13:settings-ok] err == nil ==> isptr(SettingsFrame, f) && unboxptr(SettingsFrame, f) != nil && fresh(unboxptr(SettingsFrame, f)) && val(unboxptr(SettingsFrame, f).FrameHeader) == fh && unboxptr(SettingsFrame, f).p == p && len(p) % 6 == 0
+//@   ensures [C19,C13:error-no-frame] err != nil ==> f == nil
 
 //@ func Setting.Valid :: s -> err
 //@   props C13,C12
@@ -258,18 +258,18 @@ package http2
 //@   props C19,C13
 //@   requires fr != nil && f != nil
 //@   assigns fr.lastFrame, fr.lastHeaderStream, fr.errDetail
-//@   ensures [C19:order-lenient] fr.AllowIllegalReads ==> err == nil
-//@   ensures [C19:order-expect-continuation] !fr.AllowIllegalReads && old(fr.lastHeaderStream) != 0 && (hdrOf(f).Type != 9 || hdrOf(f).StreamID != old(fr.lastHeaderStream)) ==> isConnErr(err, 1)
-//@   ensures [C19:order-stray-continuation] !fr.AllowIllegalReads && old(fr.lastHeaderStream) == 0 && hdrOf(f).Type == 9 ==> isConnErr(err, 1)
-//@   ensures [C19:order-accept] !fr.AllowIllegalReads && ((old(fr.lastHeaderStream) != 0 && hdrOf(f).Type == 9 && hdrOf(f).StreamID == old(fr.lastHeaderStream)) || (old(fr.lastHeaderStream) == 0 && hdrOf(f).Type != 9)) ==> err == nil
-//@   ensures [C19:order-state] err == nil && !fr.AllowIllegalReads ==> fr.lastHeaderStream == ite(hdrOf(f).Type == 1 || hdrOf(f).Type == 9, ite(flag(hdrOf(f).Flags, 4), 0, hdrOf(f).StreamID), old(fr.lastHeaderStream))
+//@   ensures [C19,C13:order-lenient] fr.AllowIllegalReads ==> err == nil
+//@   ensures [C19,C13:order-expect-continuation] !fr.AllowIllegalReads && old(fr.lastHeaderStream) != 0 && (hdrOf(f).Type != 9 || hdrOf(f).StreamID != old(fr.lastHeaderStream)) ==> isConnErr(err, 1)
+//@   ensures [C19,C13:order-stray-continuation] !fr.AllowIllegalReads && old(fr.lastHeaderStream) == 0 && hdrOf(f).Type == 9 ==> isConnErr(err, 1)
+//@   ensures [C19,C13:order-accept] !fr.AllowIllegalReads && ((old(fr.lastHeaderStream) != 0 && hdrOf(f).Type == 9 && hdrOf(f).StreamID == old(fr.lastHeaderStream)) || (old(fr.lastHeaderStream) == 0 && hdrOf(f).Type != 9)) ==> err == nil
+//@   ensures [C19,C13:order-state] err == nil && !fr.AllowIllegalReads ==> fr.lastHeaderStream == ite(hdrOf(f).Type == 1 || hdrOf(f).Type == 9, ite(flag(hdrOf(f).Flags, 4), 0, hdrOf(f).StreamID), old(fr.lastHeaderStream))
 //@   ensures fr.lastFrame == f
 
 //@ -- ReadFrame ------------------------------------------------------------------------------------
 //@ pure func isParser(p frameParser) bool = p == parseDataFrame || p == parseHeadersFrame || p == parsePriorityFrame || p == parseRSTStreamFrame || p == parseSettingsFrame || p == parsePushPromise || p == parsePingFrame || p == parseGoAwayFrame || p == parseWindowUpdateFrame || p == parseContinuationFrame || p == parseUnknownFrame
 
-//@ globalinv [C19:parser-table] frameParsers != nil && mapHas(frameParsers, 1) && mapGet(frameParsers, 1) == parseHeadersFrame && (forall t FrameType :: mapHas(frameParsers, t) ==> isParser(mapGet(frameParsers, t)))
-//@ globalinv [C19:too-large-sentinel] ErrFrameTooLarge != nil
+//@ globalinv [C19,C13:parser-table] frameParsers != nil && mapHas(frameParsers, 1) && mapGet(frameParsers, 1) == parseHeadersFrame && (forall t FrameType :: mapHas(frameParsers, t) ==> isParser(mapGet(frameParsers, t)))
+//@ globalinv [C19,C13:too-large-sentinel] ErrFrameTooLarge != nil
 
 //@ func typeFrameParser :: t -> p
 //@   props C19
